@@ -656,7 +656,7 @@ impl Model for M17 {
                 o.calls(20);
                 o.outcome(if r.is_ok() { "message-length:returned" } else { "message-length:PANIC" });
                 if let Err(p) = r {
-                    let band = if l <= 300 { "<=300".to_string() } else { format!("{}", l) };
+                    let band = if l <= 1100 { "<=1100".to_string() } else { format!("{}", l) };
                     o.expect(&format!("C17:panic:message-length:{}:{}:len{}:{}", GROUPS[*g], s.name(), band, profile), false, "returns", &p);
                 }
             }
@@ -855,8 +855,80 @@ impl DynModel for Parent {
     }
 }
 
+// ---- every visitor method a serde format may call ----------------------------------------------------------------
+//
+// serde_json and serde_bare call a fixed subset of the Visitor methods. Any other serde format a caller picks (CBOR,
+// MessagePack, bincode, a config crate, ...) answers the same hints with other methods: byte strings for tuples,
+// sequences for strings, integers of another width. States: (type, human readable flag, scripted answers); an action
+// appends one answer; a script is extended only while the type asked for more answers than scripted.
+
+#[derive(Clone, Debug, PartialEq, Eq, Hash, Serialize, Deserialize)]
+pub struct PSt {
+    ty: usize,
+    hr: bool,
+    script: Vec<crate::probe::Ans>,
+}
+
+pub struct M17Probe {
+    depth: usize,
+    entries: Vec<Box<dyn TyDyn + Send + Sync>>,
+    alphabet: Vec<crate::probe::Ans>,
+}
+
+impl Model for M17Probe {
+    type State = PSt;
+    type Action = crate::probe::Ans;
+    fn name(&self) -> String {
+        "c17-every-visitor-method-of-a-foreign-serde-format".into()
+    }
+    fn init(&self) -> Vec<PSt> {
+        (0..self.entries.len()).flat_map(|ty| [false, true].map(|hr| PSt { ty, hr, script: vec![] })).collect()
+    }
+    fn actions(&self, st: &PSt) -> Vec<crate::probe::Ans> {
+        if st.script.len() >= self.depth {
+            return vec![];
+        }
+        // extend only while the decoder asks beyond the script (a panic counts as not asking)
+        match self.entries[st.ty].probe(&st.script, st.hr) {
+            Ok((_, asked)) if asked > st.script.len() => self.alphabet.clone(),
+            _ => vec![],
+        }
+    }
+    fn step(&self, st: &PSt, a: &crate::probe::Ans) -> Option<PSt> {
+        let mut n = st.clone();
+        n.script.push(*a);
+        Some(n)
+    }
+    fn describe(&self, st: &PSt) -> String {
+        format!("{} decoded from a {} document of a foreign serde format that answers the type's hints with {:?} (then small integers)", self.entries[st.ty].name(), if st.hr { "human readable" } else { "binary" }, st.script)
+    }
+    fn required_outcomes(&self) -> Vec<String> {
+        vec!["probe:error".into(), "probe:value".into()]
+    }
+    fn check(&self, st: &PSt, o: &mut Obs) {
+        o.nontrivial = true;
+        let e = &self.entries[st.ty];
+        let r = e.probe(&st.script, st.hr);
+        // and once more: the verdict for a document does not depend on earlier documents
+        let r2 = e.probe(&st.script, st.hr);
+        o.calls(2);
+        let kind = st.script.last().map(|a| format!("{:?}", a).split('(').next().unwrap_or("").to_string()).unwrap_or("empty-script".into());
+        match (&r, &r2) {
+            (Ok((ok, _)), Ok((ok2, _))) => {
+                o.outcome(if *ok { "probe:value" } else { "probe:error" });
+                o.expect(&format!("C17:foreign-format:{}:{}:repeatable", e.name(), kind), ok == ok2, "the same verdict twice", "differs");
+            }
+            (Err(p), _) | (_, Err(p)) => {
+                o.outcome("probe:panic");
+                o.expect(&format!("C17:foreign-format:{}:{}:panic", e.name(), kind), false, "a value or an error", p);
+            }
+        }
+    }
+}
+
 pub fn models(tier: Tier, seed: u64) -> Vec<Box<dyn DynModel>> {
     let mut v: Vec<Box<dyn DynModel>> = vec![Box::new(Parent { tier, seed })];
+    v.push(bounded(M17Probe { depth: if tier.thorough() { 3 } else { 2 }, entries: all_entries(seed, false), alphabet: crate::probe::alphabet() }, if tier.thorough() { 3 } else { 2 }));
     // every message pattern over short aggregate lists (in process, panics are caught; both profiles run it: the
     // second profile pass is driven by this property's own parent for the decoder model only)
     v.extend(crate::props::aggx::models("C17", tier, seed));
